@@ -43,11 +43,11 @@ func TestVerif(t *testing.T) {
 
 	selfCheckClasses(t)
 
-	nA := r.N(640, 40000)
+	nA := r.N(640, 20000)
 	for i := 0; i < nA; i++ {
 		r.Run(i, fmt.Sprintf("hist-%d", i), func(c *rep.Case) { runHistory(t, r, c, i) })
 	}
-	nB := r.N(128, 4000)
+	nB := r.N(128, 2000)
 	for i := 0; i < nB; i++ {
 		r.Run(groupB+i, fmt.Sprintf("wire-%d", i), func(c *rep.Case) { runWire(t, r, c, groupB+i) })
 	}
